@@ -170,6 +170,11 @@ func runC19(seed int64, tier string, sc *Script) map[string]any {
 	enumStrings([]byte("a9/.+ !"), 5, func(s string) { mts = append(mts, s) })
 	long := strings.Repeat("a", 127)
 	mts = append(mts, long+"/"+long, long+"a/"+long, "a/"+long+"a", "application/vnd.oci.image.manifest.v1+json", "a/b/c", "/a", "a/", "é/a", "a/b;q=1")
+	// every printable ASCII character in each position of the type and the subtype
+	for ch := 33; ch < 127; ch++ {
+		c := string(rune(ch))
+		mts = append(mts, "a"+c+"/b", "a/b"+c, c+"/b", "a/"+c, "a"+c+"c/b"+c+"d")
+	}
 	for _, m := range mts {
 		if m == "" || strings.ContainsAny(m, " \t") {
 			continue
